@@ -28,8 +28,11 @@ def handler(job):
         out["vvalues"] = mat(v.values)
     if job.get("tr") is not None:
         tkw = dict(hom_deg=job["hom_deg"], num_steps=job["n"], flatten=bool(job["tr"]))
-        if job.get("explicit", True):
-            tkw.update(start=job["start"], stop=job["stop"])
+        trb = job.get("trb", "both" if job.get("explicit", True) else "none")
+        if trb in ("both", "start"):
+            tkw.update(start=job["start"])
+        if trb in ("both", "stop"):
+            tkw.update(stop=job["stop"])
         t = PersistenceLandscaper(**tkw).fit_transform(dgms)
         out["tvalues"] = mat(t)
     if job.get("dv"):
